@@ -106,6 +106,7 @@ def run(ctx, w):
     c04.print_rules(ctx, w, S, R)
     c07.pens(ctx, w, S, R)
     c07.nocontent(ctx, w, S, R, None)
+    fresh_screen_pen(ctx, w, S, R)
     # parameters handed to the decoder are exactly those of the current sequence
     # (no stale sub-parameters): the memoryless-reset rules of C03
     c03.run_t7(ctx, w, tables.parser_tables(w))
@@ -369,3 +370,27 @@ def mask_rules(ctx, w):
             ok = rts in ([("load", ("arg1", idx))], [("ref", False, ("load", ("arg1", idx)))])
             ctx.check(ok, "G5", fn, "%s returns %s" % (fn, [w.tstr(fn, t) for t in rts]), loc=w.fn_loc(fn), sample={"fn": fn})
     ctx.floor("G5", 6, "accessors")
+
+
+def fresh_screen_pen(ctx, w, S, R):
+    """G9: a screen that is blanked by replacing its buffer while the terminal keeps its pen (entering the alternate
+    screen) is blanked in the CURRENT pen: the constructor call receives Some(&self.pen)."""
+    from rules import c06
+    ctx.rule("G9", "a buffer built while the terminal keeps running (alternate-screen entry) is blanked with the current pen: Buffer::new(.., Some(&self.pen))")
+    n = 0
+    abt = ("arg1", R["active_buffer_type"])
+    for fn in sorted(w.bodies):
+        if S._impl_of(fn) != S.term_ty:
+            continue
+        # functions that (re)set the pen themselves (constructor, hard reset) start from the default pen: nothing to carry over
+        resets_pen = any(True for f2, pt, p, t in w.assign_sites({fn}, lambda p: p == ("arg1", R["pen"]))) or \
+            any(s_["k"] == "assign" and s_["rv"]["k"] == "aggregate" and s_["rv"].get("adt") == S.term_ty for bl in w.body(fn).blocks for s_ in bl["stmts"])
+        if resets_pen:
+            continue
+        for cs, a in c06.ctor_sites(w, S, fn):
+            n += 1
+            want = ("adt", "core::option::Option", "Some", ("0",), (("ref", False, ("load", ("arg1", R["pen"]))),))
+            ctx.check(len(a) == 4 and a[3] == want, "G9", "%s:%s" % (fn, shared.site_key(w, fn, cs.point)),
+                      "%s builds a screen with pen argument %s: its cells do not report the pen in effect (expected Some(&self.pen))" % (fn, w.tstr(fn, a[3])[:60] if len(a) == 4 else a),
+                      loc=w.site_loc(cs), sample={"fn": fn, "pen_argument": w.tstr(fn, a[3])[:60] if len(a) == 4 else None})
+    ctx.floor("G9", 1, "buffer constructions outside constructor / reset")
